@@ -90,6 +90,9 @@ func raceBodiesMain(args []string) int {
 
 func raceComplement(r *Run) {
 	exe := filepath.Join(VerifDir(), "bin", "check-race")
+	if self, err := os.Executable(); err == nil {
+		exe = filepath.Join(filepath.Dir(self), "check-race") // built next to this binary by run.sh
+	}
 	if _, err := os.Stat(exe); err != nil {
 		r.HarnessErr = fmt.Errorf("race binary missing: %v", err)
 		return
